@@ -794,8 +794,17 @@ def group_by(table: Table, *cols: Col | ColName | str, add=False) -> Pipeable:
         if isinstance(col, Col) and col._uuid in table._cache.cols and col._uuid not in table._cache.uuid_to_name:
             raise ValueError(f"cannot group by non-selected column `{col.ast_repr()}`")
 
+    # a column may be part of the grouping only once
+    group_cols = []
+    seen = set(table._cache.partition_by) if add else set()
+    for col in cols:
+        col = preprocess_arg(col, table)
+        if col._uuid not in seen:
+            seen.add(col._uuid)
+            group_cols.append(col)
+
     new = copy.copy(table)
-    new._ast = GroupBy(table._ast, [preprocess_arg(col, table) for col in cols], add)
+    new._ast = GroupBy(table._ast, group_cols, add)
 
     return new
 
